@@ -70,6 +70,9 @@ FIXED += [
     ("C15", "7306c0f", "a text literal that spells a column's display name was replaced by that column's value when the column was selected too: `select name, 'Name'` printed the name twice, `select mode, contains('Mode')` searched for the mode string (audit agents C04/C09; C15 now puts such literals next to columns)", []),
     ("C09", "7035180", "`into html` wrote a carriage return raw: every HTML/XML parser turns it into a line feed, so the value `c\\rd` decoded as `c\\nd` (audit agent; the check's HTML parser now normalises line ends like a real one)", []),
     ("C09", "896554b", "`into json` dropped a column that was selected twice (`select name, size, name`; 'A' and 'a' in grouped queries): the object had fewer members than the row has values (audit agent; a fifth of the cases now repeat a column)", []),
+    ("C13", "bd2b19a", "a signed day offset of four or more digits (`modified gte -1000`) went to the English date parser and silently meant something else (all entries / none) (audit agents; C13 now draws offsets up to five digits)", []),
+    ("C13", "5d63b84", "every date literal of a day whose local midnight is ambiguous (America/Havana falling back from 01:00 to 00:00) was rejected: Can't parse datetime (audit agents; Havana is now one of C13's time zones)", []),
+    ("C14", "ffddbb4", "`size = 2.01kb` compared with 2009 bytes: the product 2.01 * 1000.0 = 2009.9999999999998 was cut to an integer (audit agent; C14's literal oracle now uses exact rationals and such fractions)", []),
     ("C10", "9b6a0a7", "day('2020-0\u0661-01'): the date pattern matched non-ASCII digits and the integer parse of the capture was unwrapped (found by the eval_total fuzz target after 2e7 executions)", ["date-non-ascii-digit"]),
     ("C10", "69a0b27", "`name from './[a' depth 1 rx`: a malformed pattern in a regexp search root panicked (unwrap of Regex::new)", ["regexp-root-malformed"]),
 ]
